@@ -3,6 +3,7 @@ import PercevalModel.Model.C07
 import PercevalModel.Model.C07SV
 import PercevalModel.Model.C07Sel
 import PercevalModel.Model.C07Det
+import PercevalModel.Model.C07Mix
 import PercevalModel.SimProto
 
 open Lean PM PM.Proto PM.Fock PM.C07
@@ -279,6 +280,24 @@ def handle (j : Json) : Json :=
           ("mass", ratToJson (Dist.mass (fullDist U (prepareInput M N s))))]
       return Json.mkObj [("M", toJson M), ("N", toJson N), ("filter", toJson σ.filter),
         ("dtype", dtypeJson (detType (padDetectors M N ds))), ("runs", Json.arr runs.toArray)]
+    | "mixsel" =>
+      -- a source distribution of Fock inputs together with heralds / post-selection / filter on the loss layer
+      let (comps, M, N) ← programOfJson j
+      let U := (prodV N (rewrite M comps)).toMatrix
+      let src ← srcOfJson (← j.getObjVal? "src")
+      if src.any (·.2.length ≠ M) then throw "input size"
+      if src.any (·.1 < 0) then throw "negative weight"
+      let σ ← selOfJson (← j.getObjVal? "sel") M
+      let r := lossMixSvdSel σ U M src
+      let full := lossProbsMix U M src
+      return Json.mkObj [("M", toJson M), ("N", toJson N),
+        ("results", distJson (marginal r.1)), ("logical", ratToJson r.2.1), ("physical", ratToJson r.2.2),
+        ("spec", distJson (marginal (SimSpec.conditioned σ.cond full))),
+        ("specPhysical", ratToJson (SimSpec.physPerf σ.cond full)),
+        ("specLogical", ratToJson (SimSpec.logicalPerf σ.cond full)),
+        ("retained", ratToJson (Dist.mass (SimSpec.retained σ.cond full))),
+        ("weights", ratToJson (src.map fun (q : ℚ × List ℕ) => q.1).sum),
+        ("mass", ratToJson (Dist.mass (enlargedMix U M src)))]
     | "layers" =>
       let k : Kinds := ⟨← boolOf j "lc", ← boolOf j "td", ← boolOf j "polar", ← boolOf j "ff"⟩
       return Json.mkObj [("layers", toJson (layers k))]
